@@ -283,6 +283,38 @@ func genTables(repo string) (string, error) {
 		return "", fmt.Errorf("adler32 hasher.up: moduli disagree: %d %d", m1, m2)
 	}
 	fmt.Fprintf(&sb, "/-- `if args.x.length() > N` in std/adler32 hasher.up -/\ndef adlerChunkLen : Nat := %d\n/-- `s1 %%= N` in std/adler32 hasher.up -/\ndef adlerModulus : Nat := %d\n\n", chunk, m1)
+	// the SIMD variants (not mirrored): their chunk lengths are regenerated so that the proved no-overflow bound
+	// (Props.C07.adler_simd_chunk_le: no chunk may exceed 5552 bytes) is re-checked against them on every run
+	for _, v := range []struct{ file, fn, lean string }{
+		{"std/adler32/common_up_x86_sse42.wuffs", "up_x86_sse42", "adlerSse42ChunkLen"},
+		{"std/adler32/common_up_arm_neon.wuffs", "up_arm_neon", "adlerNeonChunkLen"},
+	} {
+		wv, err := parseWuffs(filepath.Join(repo, v.file))
+		if err != nil {
+			return "", err
+		}
+		sv, err := wv.stmts("hasher", v.fn)
+		if err != nil {
+			return "", err
+		}
+		k1, err := findNum(sv, regexp.MustCompile(`^if args\.x\.length\(\) > (\w+)$`))
+		if err != nil {
+			return "", err
+		}
+		k2, err := findNum(sv, regexp.MustCompile(`^remaining = args\.x\[(\w+) \.\.\]$`))
+		if err != nil {
+			return "", err
+		}
+		k3, err := findNum(sv, regexp.MustCompile(`^args\.x = args\.x\[\.\. (\w+)\]$`))
+		if err != nil {
+			return "", err
+		}
+		if k2 != k1 || k3 != k1 {
+			return "", fmt.Errorf("adler32 hasher.%s: chunk constants disagree: %d %d %d", v.fn, k1, k2, k3)
+		}
+		fmt.Fprintf(&sb, "/-- `if args.x.length() > N` in std/adler32 hasher.%s -/\ndef %s : Nat := %d\n", v.fn, v.lean, k1)
+	}
+	sb.WriteString("\n")
 	sb.WriteString("/-- statements of std/adler32 hasher.up, as rendered by lang/ast -/\ndef adlerUpStmts : List String := [\n")
 	for i, s := range st {
 		sep := ","
